@@ -383,6 +383,33 @@ def read_and_expect(ctx, case, root, info):
                     idx = select(cls[r], s0, s1, rstep)
                     exp[names[r]] = {cls[r][i]: float(np.mean(info['stored'][r][reps[r][i]][1][n * tm + xmin:n * tm + tm - xmin])) / case['L'] ** 3 for i in idx}
                 out.append(('energy density flow step %d' % n, tab(E[keys[n]]), exp))
+            if case.get('t0') is not None and case['nn'] >= 3 and rstep == 1 and case['t0'] % 2 == 1:
+                # extract_w0: root of t d/dt (t^2 <E(t)>) - c, the derivative by central differences (one-sided at the ends), then sqrt
+                ft = keys
+                t2E = [ft[n] ** 2 * E[ft[n]] for n in range(case['nn'] + 1)]
+                W_ = [ft[0] * (t2E[1] - t2E[0]) / (ft[1] - ft[0])]
+                W_ += [ft[i] * (t2E[i + 1] - t2E[i - 1]) / (ft[i + 1] - ft[i - 1]) for i in range(1, case['nn'])]
+                W_ += [ft[-1] * (t2E[-1] - t2E[-2]) / (ft[-1] - ft[-2])]
+                wv = [float(o.value) for o in W_]
+                if all(wv[n] < wv[n + 1] for n in range(case['nn'])):
+                    kz = 1 + (case['t0'] // 2) % (case['nn'] - 1)
+                    cval = 0.5 * (wv[kz] + wv[kz + 1])
+                    fr_ = max(1, min(case.get('t0_range', 2), kz))       # keep flow time 0 (no fluctuations there) out of the window
+                    zc_ = next(n for n in range(case['nn'] + 1) if wv[n] - cval > 0)
+                    if zc_ - fr_ > 0:
+                        ctx.count('extract_w0')
+                        w0 = oq.extract_w0(root, 'ensA', 1, xmin, case['L'], fit_range=fr_, c=cval, **k2)
+                        lo_, hi_ = max(0, zc_ - fr_), min(case['nn'] + 1, zc_ + fr_)
+                        ref = np.sqrt(line_root([ft[n] for n in range(lo_, hi_)], [W_[n] - cval for n in range(lo_, hi_)]))
+
+                        def fl2_(o):
+                            return {n_: {int(c_): float(d_) for c_, d_ in zip(o.idl[n_], o.deltas[n_])} for n_ in o.names}
+                        ta, tb = fl2_(w0), fl2_(ref)
+                        rel = max(abs(v) for t_ in tb.values() for v in t_.values())
+                        bad = [n_ for n_ in tb if sorted(ta.get(n_, {})) != sorted(tb[n_]) or any(abs(ta[n_][c_] - tb[n_][c_]) > 1e-5 * rel for c_ in tb[n_])]
+                        if bad or sorted(ta) != sorted(tb) or abs(float(w0.value) - float(ref.value)) > 1e-6 * abs(float(ref.value)):
+                            ta['value'], tb['value'] = {0: float(w0.value)}, {0: float(ref.value)}
+                            out.append(('extract_w0 (c=%r, fit_range %d)' % (cval, fr_), ta, tb))
             if case.get('t0') is not None and case['nn'] >= 2 and rstep == 1:
                 # extract_t0: root of t^2 <E(t)> - c by the straight line through the flow times around the crossing; c is put between
                 # two stored flow times, the expectation is built from the energy densities compared above
